@@ -100,7 +100,9 @@ package eio
 //@   callsite (*Server).maybeUpgrade skip
 //@     update ups = ups + 1
 //@   callsite ServerTransport.ServeHTTP
+//@     requires qget(uquery(old(r.URL)), "transport") == "polling" ==> r.Method == "GET" || r.Method == "POST" [C17.serve.polling.session.only.get.and.post]
 //@     update served = served + 1
+//@   ensures !closedseen && getok && qget(uquery(old(r.URL)), "sid") != "" && served == 0 && ups == 0 && hs == 0 && h503 == 0 ==> errs == 1 [C17.serve.refused.request.gets.the.protocols.error]
 //@   ensures closedseen ==> h503 == 1 && errs == 0 && hs == 0 && ups == 0 && served == 0 [C17.serve.closed]
 //@   ensures !closedseen && old(r.ProtoMajor) != 3 && (!atoiok(qget(uquery(old(r.URL)), "EIO")) || atoiv(qget(uquery(old(r.URL)), "EIO")) != 4) ==> errs == 1 && lastcode == ErrorUnsupportedProtocolVersion && hs == 0 && ups == 0 && served == 0 [C17.serve.version]
 //@   ensures !closedseen && !(old(r.ProtoMajor) != 3 && (!atoiok(qget(uquery(old(r.URL)), "EIO")) || atoiv(qget(uquery(old(r.URL)), "EIO")) != 4)) && qget(uquery(old(r.URL)), "sid") != "" && !getok ==> errs == 1 && lastcode == ErrorUnknownSID && hs == 0 && ups == 0 && served == 0 [C17.serve.sid]
